@@ -134,7 +134,9 @@ impl Universe {
             let k = key(rng, &keys, max_key);
             keys.push(k.clone());
             let a = rng.below(self.authors.len());
-            let ts = self.t0 + rng.below(8) as u64;
+            // mostly T0+0..7; now and then the very first timestamps (0, 1): a stored value of zero
+            // must not be mistaken for "nothing stored"
+            let ts = if rng.chance(1, 14) { rng.below(2) as u64 } else { self.t0 + rng.below(8) as u64 };
             let c = if rng.chance(3, 10) {
                 None
             } else {
